@@ -23,6 +23,10 @@ Model: `JoblibModel.FilterArgs`.
 * `filterArgsOld` transcribes the pinned tree. For it the statement is FALSE — section `Old` keeps
   the four defect shapes F2–F5 of DESIGN §7 machine-checked.
 
+Values are abstract ids in the model, so the theorems say nothing about code that inspects a value
+(`default != empty`, `if value:`); that the implementation never does is an assumption of the model,
+checked by the correspondence stream with identity-compared exotic objects (harness/props/c07.py).
+
 Not claimed: that `filter_args` rejects every call Python rejects. It does not, before or after the
 fix (`lenient_too_many_positionals`, `lenient_multiple_values`), and the property does not ask for it.
 -/
